@@ -2207,7 +2207,7 @@ class NITFReader(BaseReader):
                 formatted_shape = _get_shape(image_header.NROWS, image_header.NCOLS, formatted_bands, band_dimension=2)
             else:
                 formatted_shape = _get_shape(image_header.NCOLS, image_header.NROWS, formatted_bands, band_dimension=2)
-            transpose_axes = self._get_transpose(formatted_bands)
+            transpose_axes = self._get_transpose(raw_bands)
         else:
             format_function = None
             reverse_axes = None
@@ -2390,7 +2390,7 @@ class NITFReader(BaseReader):
             child_arrangement.append(
                 _get_subscript_def(
                     int(block_def[0]), int(block_def[1]), int(block_def[2]), int(block_def[3]), raw_bands, 2))
-        transpose = self._get_transpose(formatted_bands)
+        transpose = self._get_transpose(raw_bands)
         raw_shape = (total_rows, total_columns) if raw_bands == 1 else (total_rows, total_columns, raw_bands)
 
         formatted_shape = raw_shape[:2] if transpose is None else (raw_shape[1], raw_shape[0])
